@@ -61,7 +61,8 @@ static void caseInterfaces(Ctx &ctx)
         for (int k = 0; k < nv; ++k) {
             auto v = Variable::create("v" + std::to_string(i) + "_" + std::to_string(k));
             v->setUnits("second");
-            static const std::vector<std::string> ifs = {"", "", "public", "private", "public_and_private", "none", "bogus"};
+            // (invalid strings too, some of which CONTAIN a valid name: a substring test is not a comparison)
+            static const std::vector<std::string> ifs = {"", "", "public", "private", "public_and_private", "none", "bogus", "public_only", "not_private", "public_and_private_", "xpublic"};
             std::string s = rng.pick(ifs);
             if (!s.empty()) {
                 v->setInterfaceType(s);
@@ -262,6 +263,15 @@ static void caseLinkUnits(Ctx &ctx)
             model->addComponent(comp);
         }
         last = comp;
+        // an IMPORTED component may encapsulate ordinary components (and carries placeholder variables itself): what is
+        // below it is part of this model and gets its units linked like everything else
+        if (rng.chance(0.25)) {
+            auto src = ImportSource::create();
+            src->setUrl("lib.cellml");
+            comp->setImportSource(src);
+            comp->setImportReference("ref_" + comp->name());
+            stat("linkunits_imported_components");
+        }
         int nv = rng.range(1, 3);
         for (int k = 0; k < nv; ++k) {
             auto v = Variable::create("v" + std::to_string(c) + "_" + std::to_string(k));
